@@ -146,6 +146,10 @@ type Sim struct {
 	// Settled[x] is the total msat x has irrevocably received... see
 	// ledger helpers.
 
+	// FwdPkgs[x] are the forwarding packages handed to x, one per
+	// revocation received, in order.
+	FwdPkgs [2][]*channeldb.FwdPkg
+
 	// Trace is the printable action history.
 	Trace []string
 
